@@ -1,4 +1,5 @@
 from ..core import hexs
+from .. import world
 
 T = "Tinode.Props.C19."
 QALPHA = ["a", "B", " ", "\t", ",", '"', ":", "é"]
@@ -87,13 +88,13 @@ PROP = dict(
                "rejection of malformed queries, normal form of stored tags, immutability of restricted namespaces; the "
                "documented grammar is an executable Lean spec and the implementation's answer is compared with it on every "
                "string of length <= 5 (quick) / <= 6 (thorough) over an 8-symbol alphabet and on random structured queries.",
-    level_note="Trusted: Lean kernel; Model/Search.lean is tied to utils.go by the differential run (exhaustive on short strings). "
+    level_note="The tags of group topics ({sub new tags}, {set tags}, {get tags}: Model/TopicTags.lean uses the same normalizeTags / restrictedTagsEqual as the theorems) run in the world stream; its monitor checks that stored tags are normalised, change only by the owner's {set tags} and never gain or lose a tag of the immutable namespace. Trusted: Lean kernel; Model/Search.lean is tied to utils.go by the differential run (exhaustive on short strings). "
                "Unicode classes \\pL/\\pN, strings.ToLower/TrimSpace and sort.Strings are parameters or ASCII approximations valid "
                "on the alphabet fed; validators/authenticators that rewrite tags are a parameter (`rewrite`).",
     technique="Lean 4 proof (invariants over the tokenizer fold, sorted-list reasoning) + exhaustive differential correspondence against model and grammar spec",
     modules=["TinodeVerif.Props.C19"],
     theorems=[T + n for n in ["parse_eq_grammar", "malformed_rejected", "tags_normal", "restricted_ns_immutable"]],
-    streams=[dict(name="search", pkg="main", gen=gen_search, classify=classify)],
+    streams=[dict(name="search", pkg="main", gen=gen_search, classify=classify), world.world_stream("C19")],
     seeds=dict(quick=1, thorough=2),
     exhaustive=dict(quick=True, thorough=True),
     rule="every string of length <=5 (quick) / <=6 (thorough) over {a,B,space,tab,comma,quote,colon,é} through parseSearchQuery, random "
@@ -101,5 +102,5 @@ PROP = dict(
          "normalizeTags and restrictedTagsEqual/filterRestrictedTags under 5 namespace configurations; distinct op lines; "
          "non-trivial = everything except an empty parse",
     assumptions=["queries are valid UTF-8 in the correspondence run", "no validator/authenticator tag rewriting configured in the run (rewrite = syntax validation only)"],
-    trusted=[],
+    trusted=world.WORLD_TRUSTED,
 )
